@@ -102,6 +102,30 @@ def late_start_fn(case, wit):
             if abs(got - want) > 1e-12 * want * max(1, t) or not got > 0:
                 raise Violation("C12.late_start", "a market registered with a later start does not hold its initial value until the start and follow initial x exp(drift x (t - start)) afterwards (zero noise)",
                                 "starts %s vols %s chunk %s: market %d t=%d got %r expected %r" % (starts, vols, chunk, i, t, got, want))
+    # a drift change on each market in turn, at a time before / at / after its start, AFTER the whole path has been read:
+    # values up to the change time stay, later ones follow the new drift from the change time (or from the start, if later)
+    for i in range(len(starts)):
+        for tc in (0, 1, 3, 6):
+            g = Fundamentals(prng=random.Random(0))
+            g._generate_chunk_size = chunk
+            g._np_prng = Stub(lambda size, n: np.zeros(size))
+            for k in range(len(starts)):
+                g.add_market(k, 100.0 + 50 * k, drifts[k], vols[k], start_at=starts[k])
+            for k in range(len(starts)):
+                g.get_fundamental_price(k, T)
+            d2 = -2.0 ** -4
+            g.change_drift(i, d2, time=tc)
+            for k in range(len(starts)):
+                for t in list(range(T + 1)) + [2, 0]:
+                    got = g.get_fundamental_price(k, t)
+                    acc = 0.0
+                    for u in range(starts[k], t):
+                        acc += d2 if (k == i and u >= tc) else drifts[k]
+                    want = (100.0 + 50 * k) * math.exp(acc)
+                    if abs(got - want) > 1e-12 * want * max(1, t) or not got > 0:
+                        raise Violation("C12.late_start", "after a drift change on a market registered with a later start the path is not: initial value until the start, then the drift in force at each step (zero noise)",
+                                        "starts %s vols %s chunk %s: drift of market %d changed at time %d; market %d t=%d got %r expected %r" % (starts, vols, chunk, i, tc, k, t, got, want))
+            wit.inc("late_start_drift_changes")
     wit.inc("late_start_cases")
     return (starts, vols)
 
